@@ -2,9 +2,11 @@ import CG.Drv.C01
 import CG.Drv.C02
 import CG.Drv.C03
 import CG.Drv.C04
+import CG.Drv.C05
 import CG.Drv.C07
 import CG.Drv.C08
 import CG.Drv.C09
+import CG.Drv.C10
 import CG.Drv.C11
 import CG.Drv.C14
 import CG.Drv.C15
@@ -14,5 +16,5 @@ import CG.Drv.C20
 /-! GENERATED from the driver modules present in CG/Drv. Do not edit. -/
 namespace CG.Drv
 def allHandlers : List (String → List String → Option String) :=
-  [C01.handle, C02.handle, C03.handle, C04.handle, C07.handle, C08.handle, C09.handle, C11.handle, C14.handle, C15.handle, C17.handle, C19.handle, C20.handle]
+  [C01.handle, C02.handle, C03.handle, C04.handle, C05.handle, C07.handle, C08.handle, C09.handle, C10.handle, C11.handle, C14.handle, C15.handle, C17.handle, C19.handle, C20.handle]
 end CG.Drv
